@@ -3,3 +3,19 @@ TB = "Go toolchain; tools/instr rewriter (output type-checked by the build); vos
 add("C08", "exploration", "bounded-exhaustive enumeration of write histories against a reference interval map",
     "every history of <=2 (thorough <=3) write requests over an 8-slot alphabet per timeframe, all 11 timeframes, all column types; the real write path and query path run on the in-memory device and every all-time query result is compared with a last-writer-wins map. Small-scope exhaustive, not a proof.",
     TB + "; timezone UTC; BackgroundSync=false", "seqmc")
+SW = "Go toolchain; the reference arithmetic in the check (interval = elapsed time from local Jan 1, daily interval = local calendar day)"
+add("C10", "exploration", "exhaustive sweep of the encode/decode function pair (all 10^9 offsets of a 1-second interval in thorough)",
+    "the write path's tick encoder composed with the read path's decoder is evaluated on every nanosecond offset of a 1-second interval at three positions in the year (thorough) and on boundary grids plus strided sweeps for the other ten timeframes; same-interval, <=1 step earlier, order preservation (adjacent enumerated offsets) and exactness for 1Sec are checked on every evaluation. For 1Sec this is complete over the value domain.",
+    SW, "seqmc")
+add("C30", "exploration", "exhaustive enumeration of every interval slot of 4 years x 5 zones x 11 timeframes",
+    "every slot (thorough; quick restricts sub-minute timeframes to the days around year edges, DST switches and the leap day) is mapped time->index->time and index->offset; bijection, stamping and in-file bounds are checked per slot",
+    SW + "; zones with a permanent offset change inside a year are outside the alphabet", "seqmc")
+add("C31", "exploration", "exhaustive enumeration of duration strings x hourly instants and window edges",
+    "every accepted <n><suffix> string x 5 zones x 4 years x every hour (thorough: 10 minutes) plus +-1 ns around every window edge; window laws, parse/print fixed point and queryable-timeframe divisibility", SW, "seqmc")
+add("C27", "exploration", "bounded-exhaustive enumeration of typed column series through the real encode -> msgpack -> decode path",
+    "all schemas of <=2 (thorough <=3) columns over the 11 wire types x lengths 0-3 x 1-3 buckets with boundary values (NaN, infinities, extremes) are round-tripped and compared bitwise", TB, "seqmc")
+add("C28", "exploration", "bounded-exhaustive enumeration of schema/payload shapes through the real write path and the WAL record codec",
+    "schema shapes (name lengths up to 300, up to 256 columns) x fixed/variable x payload sizes are written through the server, the WAL record is located with an independent decoder and decoded by ParseTGData; plus synthetic multi-command transactions with extreme offsets for the shapes the write path accepts",
+    TB + "; export hook VerifSerializeTG", "seqmc")
+add("C29", "exploration", "bounded-exhaustive enumeration of schemas x rows x alignment through SerializeColumnsToRows -> RowSeries.ToColumnSeries",
+    "all 1463 schemas of <=3 columns over the fixed-width types x 0-3 rows x align on/off, boundary values, bitwise comparison of names, order, element types and values", TB, "seqmc")
